@@ -21,6 +21,8 @@ func init() {
 			c.load(psDir)
 			c.ruleSlots()
 			c.min("R-SLOTS", 8)
+			c.ruleInsertFresh()
+			c.min("R-INSERTFRESH", 1)
 			c.ruleBanGuard()
 			c.min("R-BANGUARD", 3)
 			c.ruleSatArith()
